@@ -8,6 +8,7 @@ From ADV Require Import C04.ProofsNaN C04.ProofsNaN2 C04.ProofsDet3.
 From ADV Require Import C04.Model2 C04.ProofsBuf C04.ProofsHist C04.ProofsPD.
 From Coq Require Import Reals.
 From ADV Require Import C10.Gen C04.ModelV C04.ModelV2 C04.ProofsV C04.ProofsV2 C04.ProofsV3 C04.ProofsV4.
+From ADV Require Import C04.Model3 C04.ProofsAl.
 Import ListNotations.
 Local Open Scope nat_scope.
 
@@ -706,3 +707,30 @@ Example log_determinant_nontrivial :
   cholesky NumR 2 [[4; 0]; [0; 9]]%R (buf_m NumR 2 None) = Ok [[2; 0]; [0; 3]]%R /\
   (forall i, i < 2 -> (0 < mget NumR [[2; 0]; [0; 3]]%R i i)%R).
 Proof. exact log_det_instance. Qed.
+
+(* ---- (2'') round 7: back substitution IN PLACE — backSubstitution.Run(R, b, &InSitu{X: b}) ----
+   The result buffer is the right-hand side itself; backsub_alias_run is the single-buffer model (every At / ConstAt
+   of the Go loop is a read / write of that one buffer, in the order of the Go text).  For EVERY carrier (binary64 /
+   binary32 floats included; no arithmetic law is used) the in-place call returns exactly what the call with a separate
+   result buffer returns from the ORIGINAL right-hand side, whatever InSitu.A was (A itself, a dirty buffer, nil) ... *)
+Theorem back_substitution_in_place_equals_out_of_place :
+  forall (A : Type) (N : Num A) (n : nat) (Am : list (list A)) (aliasA : bool)
+         (buf : option (list (list A))) (b x0 : list A),
+    wfm n Am -> (forall bf, buf = Some bf -> wfm n bf) -> length b = n -> length x0 = n ->
+    backsub_alias_run N n Am aliasA buf b = backsub_run_v2 N n Am (Some b) None x0.
+Proof. exact @backsub_alias_run_eq. Qed.
+
+(* ... hence over a field R * x = b (the ORIGINAL b) for upper-triangular R with non-zero diagonal; the buffer keeps its length *)
+Theorem back_substitution_in_place_correct :
+  forall (K : fld) (n : nat) (R : list (list K)) (aliasA : bool) (buf : option (list (list K))) (b : list K),
+    wf_mat K n R -> (forall bf, buf = Some bf -> wf_mat K n bf) ->
+    upper_tri K n R -> diag_nonzero K n R -> length b = n ->
+    forall i, i < n -> mulSv K (seq 0 n) R (backsub_alias_run (NumK K) n R aliasA buf b) i = vget (NumK K) b i.
+Proof. exact backsub_alias_correct. Qed.
+
+Example back_substitution_in_place_nontrivial :
+  let R := qc [[2;1;1];[0;3;1];[0;0;4]]%Z in let b := qcv [7;9;12]%Z in
+  wf_mat QcK 3 R /\ upper_tri QcK 3 R /\ diag_nonzero QcK 3 R /\ length b = 3 /\
+  map Qcanon.this (backsub_alias_run (NumK QcK) 3 R true None b) = map Qcanon.this (qcv [1;2;3]%Z) /\
+  map Qcanon.this (backsub_alias_run (NumK QcK) 3 R false (Some (qc [[9;9;9];[9;9;9];[9;9;9]]%Z)) b) = map Qcanon.this (qcv [1;2;3]%Z).
+Proof. exact backsub_alias_instance. Qed.
